@@ -28,6 +28,16 @@ correspondence : (A) rebuilt kernels fit_candidates (real/complex; binary64 repl
                  unfiltered Jacobi / Richardson vs the array model and both sides of smoothing_polynomial over CRat
                  (`ext_c10c_smooth`, `ext_c10c_p_smooth`), complex filtered Jacobi vs filteredLoopC (`ext_c10c_jacf`, hypotheses and
                  conclusion of filteredC_run_property decided on the instance).
+                 (E53) the whole of energy_prolongation_smoother -- pattern selection (degree, prefilter theta / k / both, degree 0,
+                 root rows), filter_operator pass, Krylov loop (cg / cgnr / gmres), postfilter and its second pass -- vs the composed
+                 model C10dM.energyFullCG / energyFullGmres (`ext_c10d_energy r|c`): the pattern handed to compute_BtBinv in each
+                 pass EXACTLY (dyadic strength values with ties at the theta threshold and at the k-th largest entry, unsorted
+                 strength rows), the returned P with tolerance 1e-6; the driver decides hypotheses and conclusion of
+                 energy_full_cg_property / energy_full_gmres_property on every call (flags hyps / prop); the input test
+                 T.blocksize[0] == A.blocksize[0] (ValueError) vs `error:blocksize` of the model (energy_*_precond_blocksize);
+                 smoothed_aggregation_solver / rootnode_solver hierarchies (hermitian, smooth = None | energy | jacobi | richardson, keep=True) level by
+                 level vs the level loop C10dM.hierarchy (`ext_c10d_hier`: T, B_c, P, next A with tolerance, patterns exactly),
+                 given the AggOp / strength matrix / root dofs of the real run.
 search         : the property itself on the real code with independent dense NumPy oracles:
                  T^H T = diag(1/0), T B_c = B on aggregated unknowns, zero rows, pattern(T) = AggOp (x) block,
                  number of zero columns = local rank deficiency for fit_candidates; (P - T) B_c = 0 and
@@ -58,17 +68,25 @@ META = {
             'kernels; (b) every smoothing variant (energy: cg/cgnr/gmres x degree x maxiter x weighting x pre/post '
             'filters; Jacobi diagonal/local/block, filtered or not; Richardson) on random symmetric and nonsymmetric '
             'matrices with random strength patterns; (c) every level of smoothed_aggregation_solver / rootnode_solver '
-            'hierarchies built with keep=True and improve_candidates=None.  A case is non-trivial when at least one '
+            'hierarchies built with keep=True and improve_candidates=None; (d) E53: direct calls of energy_prolongation_smoother '
+            'over the full option grid (krylov x degree 0..2 x maxiter x weighting x prefilter in {theta, k, both, none} x root / postfilter '
+            'in {theta, k, both, none} x extra candidates x real / complex) with dyadic strength values, and small hierarchies of both '
+            'solvers compared with the level-loop model.  A case is non-trivial when at least one '
             'aggregate has two or more unknowns (fit / hierarchy cases) or the update pattern has an off-diagonal block '
             '(projection / smoothing cases); distinct = distinct (operation, options, input) tuples',
-    'search_only': ['the pre-/post-filter selection of the pattern of the energy smoothers '
-                    '(filter_matrix_rows / truncate_rows): judged on the real outputs by independent NumPy oracles ((P - T) B_c = 0, '
-                    'supp(P - T) inside Atilde^degree pattern(T) with the filter recomputed independently, identity rows, P B_c = B) '
-                    '-- the filters are not modelled in this check (their kernel models belong to C19); the loops themselves have executable models for which the property is a theorem on every '
-                    'input (cg / cgnr: cg_run_property, gmres: gmres_run_property, complex: cgC_run_property / gmresC_run_property; E24, E48), '
-                    'run on the pattern the code actually used',
-                    'whole hierarchies (smoothed_aggregation_solver, rootnode_solver; keep=True, improve_candidates=None): every '
-                    'level judged by the same oracles on the stored AggOp, T, P, B, Cpts',
+    'search_only': ['numerically delicate pre-/post-filter decisions of the energy smoothers (an entry within 1e-7 of the theta threshold '
+                    'or of the k-th largest magnitude of the smoothed P; complex moduli / a theta that is not a power of two within 1e-12): the '
+                    'exact model decides them exactly, binary64 may not -- such calls are judged by the independent NumPy oracles only '
+                    '((P - T) B_c = 0, supp(P - T) inside Atilde^degree pattern(T), identity rows, P B_c = B); everything else of the '
+                    'filter selection is modelled (E53: energyPattern / postFilter, compared exactly) and covered by energy_full_cg_property / '
+                    'energy_full_gmres_property',
+                    'hierarchies outside the level-loop model (E53 models real hermitian problems with smooth = None | energy | unfiltered Jacobi | '
+                    'Richardson, the weight omega/rho of each level recorded from the run): filtered Jacobi inside hierarchies, nonsymmetric '
+                    'hierarchies (R from a second smoothing pass with BH), complex hierarchies, lloyd aggregation, improve_candidates: every level '
+                    'judged by the independent oracles on the stored AggOp, T, P, B, Cpts',
+                    'root-node levels: reproduction of B on the aggregate rows by the *scaled* tentative prolongator (scale_T) has no theorem for '
+                    'the array model (identity rows, injection, (P - T) B_c = 0 / P B_c = B and the pattern do: level_root, level_smooth_energy_*); '
+                    'judged by the oracle',
                     'single precision input: fit_candidates judged by the property oracle with tolerance 1e-4 only'],
     'partial': ['filter_operator_row_partial (root-node clause "reproduces B on every row whose pattern can support the constraints"): '
                 'proved for rows whose local Gram matrix B_J^H B_J is inverted by BtBinv; rows where the code falls back to a '
@@ -77,11 +95,17 @@ META = {
                 'over an ordered field) are about the proof-side loop C10.cfitAgg, which the check compares with the complex kernel on '
                 'every Gaussian-rational instance (`ext_c10b_p_cfit`); the refinement array model = proof-side definition is a theorem '
                 'for the real instance only (fitCandidates_refines)',
-                'gmres_run_property (T\' B_c = T B_c and pattern kept by the executable gmres model on every input on which it returns) '
-                'covers row-scaling preconditioners and block-diagonal ones whose block size is the row block size of the pattern '
-                '(all calls of the check); the same restriction applies to cg_run_property / cgC_run_property / gmresC_run_property (E48). With root nodes '
-                'cg_run_property states the product and pattern clauses on the non-root rows and "untouched or identity row" on the root rows '
-                '(the loop resets the root rows after every update); the complex gmres model uses 64-bit square roots for norms and moduli '
+                'gmres_run_property / cg_run_property / cgC_run_property / gmresC_run_property are stated for row-scaling preconditioners and '
+                'block-diagonal ones whose block size is the row block size of the pattern; E53 proves that energy_prolongation_smoother never '
+                'builds another one (energy_cg_precond_blocksize / energy_gmres_precond_blocksize: the input test rejects T.blocksize[0] != '
+                'A.blocksize[0], and the check verifies the ValueError on the real code), so the composed theorems energy_full_*_property carry no '
+                'such restriction. With root nodes cg_run_property states the product and pattern clauses on the non-root rows and "untouched or '
+                'identity row" on the root rows (the loop resets the root rows after every update); the complex gmres model uses 64-bit square '
+                'roots for norms and moduli ',
+                'level_fit_reproduces (T B_c = B - drop on every level) is a theorem for ordered fields with an exact square root (the real '
+                'numbers); the driver runs the level loop on rationals with 64-bit square roots and reciprocals (ratOpsD) and compares with '
+                'tolerance; the composed energy theorems hold for the executed instance itself and the driver re-decides their conclusion '
+                'exactly on every call ',
                 '(compared with tolerance 1e-6 like the real one)'],
     'assumptions': ['binary64 rounding is outside the exact models: kernels are compared exactly on dyadic and perfect-square instances '
                     '(every operation is then exact) and fit_candidates is replayed in binary64 bit by bit on generic data; functions '
@@ -103,6 +127,14 @@ META = {
                     'pattern itself',
                     'rows whose local candidate block has singular values between 1e-9 and 1e-2 of the largest are numerically '
                     'ambiguous (pinv cut-off) and are skipped (counted in near_threshold_skipped / features)',
+                    'E53: the SciPy operations between the pyamg calls are part of the composed model as an environment description '
+                    '(csr_matmat: linked list of the columns seen, newest first, exact zero sums dropped; bsr_tocsr order; sums of patterns as '
+                    'set unions; unamal / tobsr + sort_indices) and are validated by the exact comparison of the selected patterns on every call; '
+                    'truncate_rows is called with k >= 1, theta in [0, 1); T without duplicate block columns; A.nnz > 0',
+                    'E53 hierarchies: the model takes AggOp, the strength matrix and the root dofs of every level from the real run (C01-C04, C12 '
+                    'are about them); sqrt and 1/norm of the fit kernel are rounded to 64 significant bits, the Galerkin product to 2^-80 '
+                    '(the theorems hold for any rounding of the Galerkin product); sizes are limited (n <= 12 on the finest level) because exact '
+                    'rationals grow fast; gmres / cgnr levels use one candidate per aggregate',
                     'root-node direct calls: nodes the aggregation leaves out have no strong neighbours (what the aggregation routines '
                     'guarantee); strength=None is used with scalar problems only (on block matrices it aggregates dofs, not nodes)'],
 }
@@ -1565,7 +1597,7 @@ def judge_energy(ctx, case):
     B = uncj(case['B'], cplx).reshape(nn * bs, K2)
     agg = np.array(case['agg'])
     Cv = np.array(case['Cvals']).reshape(nn, nn)
-    C = gen.int32csr(sp.csr_array(Cv))
+    C = case_csr(case, nn) if 'Cp' in case else gen.int32csr(sp.csr_array(Cv))
     S = to_sparse(M, bs)
     T, Bc = fit_candidates(aggop_of(agg, nc), B)
     Tin = T.copy()
@@ -1599,6 +1631,13 @@ def judge_energy(ctx, case):
         ctx.violation(what + ' modified the tentative prolongator it was given', case)
 
 
+def case_csr(case, nn):
+    """the strength matrix of a case that stores its CSR arrays (stored order of the entries matters for ties in truncate_rows)"""
+    C = sp.csr_array((np.array(case['Cx'], dtype=float), i32(case['Cj']), i32(case['Cp'])), shape=(nn, nn))
+    C.indptr, C.indices = i32(C.indptr), i32(C.indices)
+    return C
+
+
 def rootnode_inputs(case):
     from pyamg.aggregation.tentative import fit_candidates
     from pyamg.util.utils import scale_T, get_Cpt_params
@@ -1608,7 +1647,7 @@ def rootnode_inputs(case):
     agg = np.array(case['agg'])
     roots = np.array(case['roots'], dtype=np.int32)
     Cv = np.array(case['Cvals']).reshape(nn, nn)
-    C = gen.int32csr(sp.csr_array(Cv))
+    C = case_csr(case, nn) if 'Cp' in case else gen.int32csr(sp.csr_array(Cv))
     S = to_sparse(M, bs)
     AggOp = aggop_of(agg, nc)
     T0, _ = fit_candidates(AggOp, B[:, :bs])
@@ -1665,7 +1704,8 @@ def judge_rootnode(ctx, case):
     try:
         with quiet():
             P = energy_prolongation_smoother(S, T, C, Bc, B, (True, par), krylov=case['krylov'], maxiter=case['maxiter'],
-                                             degree=case['degree'], weighting=case['weighting'], postfilter=post)
+                                             degree=case['degree'], weighting=case['weighting'], postfilter=post,
+                                             prefilter=dict(case['prefilter']) if case.get('prefilter') else None)
     except Exception as e:       # noqa: BLE001
         ctx.violation(f'{what} raised {type(e).__name__}: {e}', case)
         return
@@ -2563,6 +2603,44 @@ def e53_filter_enc(f):
     return (enc_rat(f['theta']) if 'theta' in f else '-') + ' ' + (str(int(f['k'])) if 'k' in f else '-')
 
 
+def e53_krylov_gate(ctx, krylov, cplx, diags):
+    """may the result of the model's Krylov runs be compared with the binary64 run?  (no breakdown, no decision
+    `newsum < tol` / `normr < tol` within rounding distance, well-conditioned Hessenberg factor)"""
+    for d in diags:
+        head, *lists = d.split('@')
+        hs = head.split(',')
+        if hs[0] != 'regular' or 'lucky' in hs:
+            ctx.feat('energy-full:breakdown-skipped')
+            return False
+        if krylov == 'gmres':
+            dec = (lambda s_: [abs(complex(float(a), float(b))) for a, b in dec_list(s_, dec_crat)]) if cplx else \
+                  (lambda s_: [abs(float(x)) for x in dec_list(s_, dec_rat)])
+            normrs, hns, diag = dec(lists[0]), dec(lists[1]), dec(lists[2])
+            if normrs[:1] == [0.0]:
+                continue
+            if (any(x < 1e-4 for x in normrs) or any(x < 1e-6 for x in hns) or (diag and min(diag) < 1e-6 * max(diag + [1.0]))):
+                ctx.near_skipped += 1
+                return False
+        else:
+            sums = ([abs(complex(float(a), float(b))) for a, b in dec_list(lists[0], dec_crat)] if cplx
+                    else [abs(float(x)) for x in dec_list(lists[0], dec_rat)])
+            if any(1e-12 < x < 1e-4 for x in sums):
+                ctx.near_skipped += 1
+                return False
+    return True
+
+
+def e53_oracle(ctx, case):
+    """the property itself, judged on the real code by the independent NumPy oracles, for a case of item_energy_full"""
+    nn = case['nn']
+    Cv = sp.csr_array((np.array(case['Cx'], dtype=float), i32(case['Cj']), i32(case['Cp'])), shape=(nn, nn)).toarray()
+    c2 = dict(case, Cvals=Cv.ravel().tolist())
+    if case['root']:
+        judge_rootnode(ctx, dict(c2, op='energy_rootnode'))
+    else:
+        judge_energy(ctx, dict(c2, op='energy'))
+
+
 def item_energy_full(ctx, rng, t):
     """energy_prolongation_smoother, every option, vs the composed model `C10dM.energyFullCG` / `energyFullGmres`
     (`ext_c10d_energy`): the pattern handed to compute_BtBinv in the first pass (exact), the pattern of the
@@ -2635,6 +2713,10 @@ def item_energy_full(ctx, rng, t):
             'prefilter': pre, 'postfilter': post, 'bs': bs, 'nn': nn, 'K2': K2, 'nd': nd, 'complex': cplx, 'M': cj(M),
             'Cp': C.indptr.tolist(), 'Cj': C.indices.tolist(), 'Cx': C.data.tolist(), 'agg': [int(a) for a in agg], 'nc': nc,
             'roots': None if roots is None else roots.tolist(), 'B': cj(B)}
+    def corr(*a_):
+        ctx.corr(*a_)
+        e53_oracle(ctx, case)       # the property itself on the real code, independent oracle
+
     Tin = T0.copy()
     tpat = ';'.join(enc_ints([int(c) for c in Tin.indices[Tin.indptr[i]:Tin.indptr[i + 1]]]) for i in range(nn))
     what = (f'energy_prolongation_smoother({krylov}, degree={degree}, maxiter={maxiter}, {weighting}, prefilter={pre}, '
@@ -2651,7 +2733,7 @@ def item_energy_full(ctx, rng, t):
         return None
     pats = [c[0][1] for c in tap.calls]
     if any(p_.format != 'bsr' or tuple(p_.blocksize) != (rpb, cpb) for p_ in pats):
-        ctx.corr('energy smoother (E53)', case, 'n/a', f'pattern formats {[(p_.format, getattr(p_, "blocksize", None)) for p_ in pats]}')
+        corr('energy smoother (E53)', case, 'n/a', f'pattern formats {[(p_.format, getattr(p_, "blocksize", None)) for p_ in pats]}')
         return None
     for p_ in pats:
         st = rows_status(Bc, p_.indptr, p_.indices, nn, cpb)
@@ -2661,7 +2743,7 @@ def item_energy_full(ctx, rng, t):
     post_eff = {k_: v for k_, v in (post or {}).items() if not (k_ == 'theta' and v == 0)}
     second = bool(root and post_eff)
     if len(pats) != (2 if second else 1):
-        ctx.corr('energy smoother (E53)', case, f'{2 if second else 1} calls of compute_BtBinv', f'{len(pats)} calls')
+        corr('energy smoother (E53)', case, f'{2 if second else 1} calls of compute_BtBinv', f'{len(pats)} calls')
         return None
     # numerically delicate filter decisions (the model decides them exactly)
     pre_eff = {k_: v for k_, v in (pre or {}).items() if not (k_ == 'theta' and v == 0)}
@@ -2699,15 +2781,15 @@ def item_energy_full(ctx, rng, t):
             if reply in ('error:singular', 'error:krylov', 'error:precond'):
                 ctx.feat('energy-full:singular-skipped')
             else:
-                ctx.corr(f'energy smoother (E53) {krylov}', case, reply, 'returned a prolongator')
+                corr(f'energy smoother (E53) {krylov}', case, reply, 'returned a prolongator')
             return
         parts = reply.split('#')
         if len(parts) != 8:
-            ctx.corr(f'energy smoother (E53) {krylov}', case, reply[:300], 'n/a', 'malformed reply')
+            corr(f'energy smoother (E53) {krylov}', case, reply[:300], 'n/a', 'malformed reply')
             return
         p1, p2, pm, _p1m, flags, chk, d1, d2 = parts
         if 'NOHYPS' in chk or 'NOPROP' in chk:
-            ctx.corr(f'energy smoother (E53) {krylov} (model invariants)', case, chk, 'n/a',
+            corr(f'energy smoother (E53) {krylov} (model invariants)', case, chk, 'n/a',
                      'the call does not satisfy the hypotheses of energy_full_property or the model\'s own result does not satisfy its conclusion')
             return
         # 1. the pattern of the first pass
@@ -2715,50 +2797,296 @@ def item_energy_full(ctx, rng, t):
             ctx.near_skipped += 1
             return
         if dec_pat(p1, nn) != pat_of_bsr(pats[0], nn):
-            ctx.corr(f'energy smoother (E53): pattern of the first pass', case, p1, pat_enc(pats[0].indptr, pats[0].indices, nn))
+            corr(f'energy smoother (E53): pattern of the first pass', case, p1, pat_enc(pats[0].indptr, pats[0].indices, nn))
             return
         ctx.feat('energy-full:pattern1-exact')
         if ('second' in flags) != second or ('fitted' in flags) != bool(root and nd > bs):
-            ctx.corr(f'energy smoother (E53): passes', case, flags, f'second={second}')
+            corr(f'energy smoother (E53): passes', case, flags, f'second={second}')
             return
         # 2. breakdown / tolerance decisions of the Krylov runs
-        for d in [d1] + ([d2] if second else []):
-            head, *lists = d.split('@')
-            hs = head.split(',')
-            if hs[0] != 'regular' or 'lucky' in hs:
-                ctx.feat('energy-full:breakdown-skipped')
-                return
-            if krylov == 'gmres':
-                dec = (lambda s: [abs(complex(float(a), float(b))) for a, b in dec_list(s, dec_crat)]) if cplx else \
-                      (lambda s: [abs(float(x)) for x in dec_list(s, dec_rat)])
-                normrs, hns, diag = dec(lists[0]), dec(lists[1]), dec(lists[2])
-                if normrs[:1] == [0.0]:
-                    continue
-                if (any(x < 1e-4 for x in normrs) or any(x < 1e-6 for x in hns) or (diag and min(diag) < 1e-6 * max(diag + [1.0]))):
-                    ctx.near_skipped += 1
-                    return
-            else:
-                sums = ([abs(complex(float(a), float(b))) for a, b in dec_list(lists[0], dec_crat)] if cplx
-                        else [abs(float(x)) for x in dec_list(lists[0], dec_rat)])
-                if any(1e-12 < x < 1e-4 for x in sums):
-                    ctx.near_skipped += 1
-                    return
+        if not e53_krylov_gate(ctx, krylov, cplx, [d1] + ([d2] if second else [])):
+            return
         # 3. the pattern of the post-filter pass
         if second:
             if delicate2:
                 ctx.near_skipped += 1
                 return
             if dec_pat(p2, nn) != pat_of_bsr(pats[1], nn):
-                ctx.corr(f'energy smoother (E53): pattern of the post-filter pass', case, p2, pat_enc(pats[1].indptr, pats[1].indices, nn))
+                corr(f'energy smoother (E53): pattern of the post-filter pass', case, p2, pat_enc(pats[1].indptr, pats[1].indices, nn))
                 return
             ctx.feat('energy-full:pattern2-exact')
         # 4. the result
         v, f = dec_vals(pm, mode)
         if not close(f, Pd, 1e-6):
-            ctx.corr(f'energy smoother (E53) {krylov} ({"complex" if cplx else "real"})', case, pm[:300], cj(Pd)[:16])
+            corr(f'energy smoother (E53) {krylov} ({"complex" if cplx else "real"})', case, pm[:300], cj(Pd)[:16])
     return {'line': line, 'judge': judge, 'key': _key('energy-full', line), 'nontrivial': True,
             'sample': {'op': 'energy_prolongation_smoother vs composed model (E53)', 'krylov': krylov, 'complex': cplx, 'degree': degree,
                        'maxiter': maxiter, 'weighting': weighting, 'root': root, 'prefilter': pre, 'postfilter': post, 'n': n}}
+
+
+def in_child(fn):
+    """run fn() in a forked child; ('ok', result) or ('signal n' | 'exit n', None) when the child died"""
+    import os
+    import pickle
+    r, w = os.pipe()
+    pid = os.fork()
+    if pid == 0:
+        code = 0
+        try:
+            os.close(r)
+            data = pickle.dumps(fn())
+            with os.fdopen(w, 'wb') as f:
+                f.write(data)
+        except BaseException:       # noqa: BLE001
+            code = 3
+        os._exit(code)
+    os.close(w)
+    with os.fdopen(r, 'rb') as f:
+        data = f.read()
+    _, st = os.waitpid(pid, 0)
+    if os.WIFSIGNALED(st):
+        return f'signal {os.WTERMSIG(st)}', None
+    if os.WEXITSTATUS(st) != 0 or not data:
+        return f'exit {os.WEXITSTATUS(st)}', None
+    return 'ok', pickle.loads(data)
+
+
+def item_energy_blocksize(ctx, rng, t):
+    """the input test behind energyFullCG_precond / energyFullGmres_precond: a tentative prolongator whose row block
+    size differs from A's block size (so that a 'block' preconditioner would not match the pattern's block rows) is
+    rejected with ValueError before any preconditioner is built; the model answers `error:blocksize`"""
+    from pyamg.aggregation.smooth import energy_prolongation_smoother
+    from pyamg.aggregation.tentative import fit_candidates
+    krylov = ['cg', 'cgnr', 'gmres'][t % 3]
+    bsA, rpb = [(2, 1), (1, 2), (3, 1), (2, 4)][(t // 3) % 4]
+    nn = int(rng.integers(2, 4)) * (rpb if rpb > bsA else 1)
+    n = nn * bsA
+    M = rand_matrix(rng, nn, bsA, sym=True)
+    S = sp.csr_array(M).tobsr(blocksize=(bsA, bsA)) if bsA > 1 else gen.int32csr(sp.csr_array(M))
+    nfine = n // rpb                       # aggregation of "nodes" of rpb dofs: T gets row block size rpb
+    agg, nc = chain_partition(rng, nfine, p_un=0.0)
+    K2 = 1
+    B = rand_candidates(rng, agg, nc, rpb, K2, False, 'generic')
+    T0, Bc = fit_candidates(aggop_of(agg, nc), B)
+    if T0.format != 'bsr':
+        T0 = T0.tobsr(blocksize=(1, 1))
+    C = gen.int32csr(sp.csr_array(np.eye(nfine)))
+    case = {'op': 'energy_blocksize', 'krylov': krylov, 'bsA': bsA, 'rpb': rpb, 'nn': nn, 'M': cj(M), 'agg': [int(a) for a in agg],
+            'nc': nc, 'B': cj(B)}
+    what = f'energy_prolongation_smoother({krylov}, weighting=block) with A.blocksize[0]={bsA}, T.blocksize[0]={rpb}'
+    # in a child process: without the input test the kernels are called with inconsistent block sizes and may crash
+    def call():
+        try:
+            with quiet():
+                P_ = energy_prolongation_smoother(S, T0.copy(), C, Bc, None, (False, {}), krylov=krylov, maxiter=2, degree=1, weighting='block')
+            return (None, P_.toarray())
+        except ValueError as e:
+            return (str(e), None)
+        except Exception as e:       # noqa: BLE001
+            return (f'{type(e).__name__}: {e}', None)
+    status, res = in_child(call)
+    if status != 'ok':
+        ctx.violation(what + f': the call crashed the interpreter ({status})', case)
+        return None
+    raised, Pd_child = res
+    Td = T0.toarray()
+    tpat = ';'.join(enc_ints([int(c) for c in T0.indices[T0.indptr[i]:T0.indptr[i + 1]]]) for i in range(nfine))
+    line = (f'ext_c10d_energy r {krylov} 3 {bsA} 1 - - - - 0 2 {n} {Td.shape[1]} {K2} {rpb} {T0.blocksize[1]} {nfine} '
+            f'{enc_ints(C.indptr)} {enc_ints(C.indices)} {enc_rats(C.data)} {tpat} {enc_rats(M.ravel())} {enc_rats(np.abs(M).sum(1))} '
+            f'{enc_rats(Td.ravel())} {enc_rats(Bc.ravel())} {enc_rats(np.zeros(n * K2))} - {enc_rat(1e-8)} {enc_rat(1e-8)}')
+
+    def judge(reply):
+        ctx.feat('energy-full:blocksize-mismatch-rejected' if raised else 'energy-full:blocksize-mismatch-ACCEPTED')
+        if reply != 'error:blocksize':
+            ctx.corr('energy smoother (E53): block size test of the model', case, reply[:200], 'error:blocksize expected')
+        if raised is None or 'blocksize' not in raised:
+            ctx.corr('energy smoother (E53): block size test', case, 'error:blocksize', raised or 'returned a prolongator')
+            # the property itself on what came back: the constraint (P - T) B_c = 0 and finite entries
+            if Pd_child is not None:
+                Pd = Pd_child
+                if Pd.shape != Td.shape or not np.all(np.isfinite(Pd)) or not close(Pd @ Bc, Td @ Bc, 1e-7):
+                    ctx.violation(what + ': accepted, and the result does not satisfy (P - T) B_c = 0', case)
+            elif raised is not None:
+                ctx.violation(what + f': raised {raised}', case)
+    return {'line': line, 'judge': judge, 'key': _key('energy-blocksize', line), 'nontrivial': True,
+            'sample': {'op': 'energy smoother block-size input test (E53)', 'krylov': krylov, 'bsA': bsA, 'rpb': rpb} if t < 2 else None}
+
+
+E53_HIER_SMOOTH_SA = [None, ('jacobi', {'omega': 4.0 / 3.0}), ('jacobi', {'omega': 1.0, 'degree': 2, 'weighting': 'local'}),
+                      ('jacobi', {'weighting': 'block', 'degree': 1}), ('richardson', {'omega': 1.0, 'degree': 2}),
+                      ('energy', {'krylov': 'cg', 'maxiter': 2, 'degree': 1}),
+                      ('energy', {'krylov': 'cgnr', 'maxiter': 2, 'degree': 1, 'weighting': 'diagonal'}),
+                      ('energy', {'krylov': 'gmres', 'maxiter': 2, 'degree': 1, 'weighting': 'diagonal'}),
+                      ('energy', {'krylov': 'cg', 'maxiter': 1, 'degree': 2, 'weighting': 'diagonal', 'prefilter': {'k': 3}}),
+                      ('energy', {'krylov': 'cg', 'maxiter': 2, 'degree': 0, 'weighting': 'block'}),
+                      ('energy', {'krylov': 'cg', 'maxiter': 2, 'degree': 1, 'prefilter': {'theta': 0.25}})]
+E53_HIER_SMOOTH_RN = [('energy', {'krylov': 'cg', 'maxiter': 2, 'degree': 1}), None,
+                      ('energy', {'krylov': 'gmres', 'maxiter': 2, 'degree': 1, 'weighting': 'diagonal'}),
+                      ('energy', {'krylov': 'cg', 'maxiter': 2, 'degree': 1, 'postfilter': {'k': 2}}),
+                      ('energy', {'krylov': 'cgnr', 'maxiter': 1, 'degree': 2, 'postfilter': {'theta': 0.125}}),
+                      ('energy', {'krylov': 'cg', 'maxiter': 2, 'degree': 1, 'weighting': 'diagonal', 'prefilter': {'k': 2}})]
+
+
+def item_hierarchy_model(ctx, rng, t):
+    """smoothed_aggregation_solver / rootnode_solver (keep=True, improve_candidates=None, hermitian problems) level by
+    level vs the level loop `C10dM.hierarchy` (`ext_c10d_hier`: fit_candidates kernel model + scale_T + composed energy
+    model + Galerkin product, on rationals with 64-bit square roots), given the AggOp, strength matrix and root dofs the
+    real run produced on each level: T, B_c, P, the next A (tolerance) and the patterns (exact)"""
+    import pyamg
+    root = t % 2 == 1
+    kind = ['poisson1d', 'random', 'poisson2d', 'random_bsr', 'random'][(t // 2) % 5]
+    from pyamg.gallery import poisson
+    if kind == 'poisson1d':
+        n = int(rng.integers(6, 11))
+        A, bs = poisson((n,), format='csr'), 1
+        B = np.ones((n, 1)) if t % 3 else np.hstack([np.ones((n, 1)), np.arange(n, dtype=float).reshape(-1, 1) / 8.0])
+    elif kind == 'poisson2d':
+        nx, ny = 3, int(rng.integers(3, 5))
+        A, bs = poisson((nx, ny), format='csr'), 1
+        B = np.ones((A.shape[0], 1))
+    else:
+        bs = 1 if kind == 'random' else 2
+        nn = int(rng.integers(5, 9)) if bs == 1 else int(rng.integers(3, 5))
+        M = rand_matrix(rng, nn, bs, sym=True)
+        A = to_sparse(M, bs)
+        B = np.round(rng.standard_normal((nn * bs, int(rng.choice([1, 2])) if not root else bs)) * 8) / 8
+        B[np.abs(B) < 0.125] = 0.5
+    if root and B.shape[1] < bs:
+        B = np.hstack([B, np.round(rng.standard_normal((B.shape[0], bs - B.shape[1])) * 8) / 8 + 0.0625])
+    if root and rng.random() < 0.3:
+        B = np.hstack([B, np.round(rng.standard_normal((B.shape[0], 1)) * 8) / 8 + 0.0625])     # more candidates than dofs per node
+    smooth = (E53_HIER_SMOOTH_RN if root else E53_HIER_SMOOTH_SA)[int(rng.integers(len(E53_HIER_SMOOTH_RN if root else E53_HIER_SMOOTH_SA)))]
+    energy = bool(smooth) and smooth[0] == 'energy'
+    if energy and B.shape[1] > 1 and smooth[1].get('krylov') in ('gmres', 'cgnr'):
+        # the exact rationals of the gmres / cgnr models grow too fast with several candidates per aggregate (the second
+        # column of T has 200-bit entries): those loops are run on hierarchies with one candidate, and directly (item_energy_full)
+        smooth = ('energy', dict(smooth[1], krylov='cg'))
+    strength = [('symmetric', {'theta': 0.0}), ('symmetric', {'theta': 0.25}), ('classical', {'theta': 0.25}), None][int(rng.integers(4))]
+    if (bs > 1 or B.shape[1] > 1) and strength is None:
+        strength = ('symmetric', {'theta': 0.0})
+    aggregate = ['standard', 'naive'][int(rng.integers(2))]
+    n0, nd0 = A.shape[0], B.shape[1]
+    Ad = A.toarray()
+    case = {'op': 'hierarchy_model', 'root': root, 'kind': kind, 'smooth': smooth, 'strength': strength, 'aggregate': aggregate,
+            'bs': bs, 'A': Ad.ravel().tolist(), 'n': n0, 'B': B.ravel().tolist(), 'nd': nd0}
+    seed = int(rng.integers(2**31))
+    case.update({'complex': False, 'symmetry': 'hermitian', 'max_coarse': 1, 'np_seed': seed})
+    case['A'], case['B'] = cj(Ad), cj(B)
+
+    def corr(*a_):
+        ctx.corr(*a_)
+        judge_hierarchy(ctx, dict(case, op='hierarchy'))      # the property itself on the real code, independent oracles
+
+    np.random.seed(seed)
+    fn = pyamg.rootnode_solver if root else pyamg.smoothed_aggregation_solver
+    sm = None if smooth is None else (smooth[0], {k_: (dict(v) if isinstance(v, dict) else v) for k_, v in smooth[1].items()})
+    what0 = ('rootnode_solver' if root else 'smoothed_aggregation_solver') + f'(smooth={smooth}, strength={strength}, aggregate={aggregate})'
+    try:
+        with Tap('compute_BtBinv') as tap, Tap('approximate_spectral_radius') as taprho, quiet():
+            ml = fn(A, B=B.copy(), symmetry='hermitian', strength=strength, aggregate=aggregate, smooth=sm, improve_candidates=None,
+                    max_coarse=1, max_levels=3, keep=True)
+    except Exception as e:       # noqa: BLE001
+        ctx.violation(f'{what0} raised {type(e).__name__}: {e}', case)
+        return None
+    lv = ml.levels[:-1]
+    if not lv:
+        return None
+    opts = smooth[1] if smooth else {}
+    krylov = (opts.get('krylov', 'cg') if energy else 'jacobi') if smooth else 'none'
+    pre, post = opts.get('prefilter'), opts.get('postfilter') if root else None
+    post_eff = {k_: v for k_, v in (post or {}).items() if not (k_ == 'theta' and v == 0)}
+    passes = (2 if (root and post_eff) else 1) if energy else 0
+    if energy and len(tap.calls) != passes * len(lv):
+        return None          # a level returned early (empty T or A): nothing to compare level by level
+    ws = ['0'] * len(lv)
+    if smooth and not energy:
+        omega = opts.get('omega', 4.0 / 3.0)
+        wname = 'richardson' if smooth[0] == 'richardson' else opts.get('weighting', 'diagonal')
+        if wname == 'local':
+            ws = [enc_rat(omega)] * len(lv)
+        else:
+            if len(taprho.calls) != len(lv):
+                return None
+            ws = [enc_rat(omega / float(c[2])) for c in taprho.calls]
+    levels = []
+    for lvl in lv:
+        Ac = lvl.AggOp.tocsc()
+        C = sp.csr_array(lvl.C)
+        cpts = [int(c) for c in lvl.Cpts] if root else []
+        if root and len(cpts) != lvl.P.shape[1]:
+            return None      # an aggregate without members (see C12): no root
+        levels.append(':'.join([str(lvl.AggOp.shape[0]), str(lvl.AggOp.shape[1]), enc_ints(Ac.indptr), enc_ints(Ac.indices),
+                                str(C.shape[0]), enc_ints(C.indptr), enc_ints(C.indices), enc_rats(C.data), enc_ints(cpts), ws[len(levels)]]))
+    if energy or not smooth:
+        wt = {'diagonal': 0, 'local': 1, 'block': 3}[opts.get('weighting', 'local')]
+    else:
+        wt = 2 if smooth[0] == 'richardson' else {'diagonal': 0, 'local': 1, 'block': 3}[opts.get('weighting', 'diagonal')]
+    line = (f'ext_c10d_hier {1 if root else 0} {krylov} {wt} {opts.get("degree", 1)} {e53_filter_enc(pre)} {e53_filter_enc(post)} '
+            f'{opts.get("maxiter", 4)} {bs} {n0} {nd0} {enc_rats(Ad.ravel())} {enc_rats(B.ravel())} {"~".join(levels)} '
+            f'{enc_rat(opts.get("tol", 1e-8))} {enc_rat(1e-10)} 80')
+
+    def judge(reply):
+        ctx.feat('hier-model:' + ('rootnode' if root else 'sa') + ':' + kind)
+        ctx.feat('hier-model:smooth:' + krylov)
+        blocks = [b_ for b_ in reply.split('~') if b_ != '']
+        for li, lvl in enumerate(lv):
+            what = f'{what0} level {li}'
+            if li >= len(blocks) or blocks[li].startswith('error:'):
+                err = blocks[min(li, len(blocks) - 1)]
+                if err in ('error:singular', 'error:krylov', 'error:precond'):
+                    ctx.feat('hier-model:singular-skipped')
+                else:
+                    corr(f'hierarchy model: {what}', case, err, 'a level was built')
+                return
+            parts = blocks[li].split('#')
+            if len(parts) != (13 if energy else 6):
+                corr(f'hierarchy model: {what}', case, blocks[li][:200], 'n/a', 'malformed reply')
+                return
+            Td, Pd = lvl.T.toarray(), lvl.P.toarray()
+            Bn, An = np.asarray(ml.levels[li + 1].B), ml.levels[li + 1].A.toarray()
+            mT = np.array([float(x) for x in dec_list(parts[0], dec_rat)]).reshape(Td.shape)
+            mB = np.array([float(x) for x in dec_list(parts[1], dec_rat)]).reshape(Bn.shape)
+            if not close(mT, Td, 1e-9) or not close(mB, Bn, 1e-9):
+                corr(f'hierarchy model: tentative prolongator / coarse candidates, {what}', case, parts[0][:200], Td.ravel()[:12].tolist())
+                return
+            ctx.feat(f'hier-model:level{li}:T')
+            if energy:
+                p1, p2, _pm, _p1m, flags, _chk, d1, d2 = parts[5:]
+                nnodes = lvl.AggOp.shape[0]
+                pats = [c[0][1] for c in tap.calls[passes * li:passes * (li + 1)]]
+                bad_pat = dec_pat(p1, nnodes) != pat_of_bsr(pats[0], nnodes)
+                second = passes == 2
+                if bad_pat:
+                    # an exact cancellation in Atilde^degree pattern(T) that binary64 misses (or the converse)?
+                    Cd = np.abs(sp.csr_array(lvl.C).toarray())
+                    Sd = sp.csr_array(lvl.C).toarray()
+                    Tb = block_any(Td != 0, lvl.T.blocksize[0], lvl.T.blocksize[1]).astype(float)
+                    pa, ps = Tb.copy(), Tb.copy()
+                    for _ in range(opts.get('degree', 1)):
+                        pa, ps = Cd @ pa, Sd @ ps
+                    if np.any((np.abs(ps) < 1e-9 * np.maximum(pa, 1e-300)) & (pa > 0)) or delicate_filter(sp.csr_array(ps), pre, 1e-9):
+                        ctx.near_skipped += 1
+                        return
+                    corr(f'hierarchy model: pattern of the first pass, {what}', case, p1, pat_enc(pats[0].indptr, pats[0].indices, nnodes))
+                    return
+                if not e53_krylov_gate(ctx, krylov, False, [d1] + ([d2] if second else [])):
+                    return
+                if second and dec_pat(p2, nnodes) != pat_of_bsr(pats[1], nnodes):
+                    ctx.near_skipped += 1          # the post-filter decides on rounded values of P: not compared exactly here
+                    return
+            mP = np.array([float(x) for x in dec_list(parts[2], dec_rat)]).reshape(Pd.shape)
+            mA = np.array([float(x) for x in dec_list(parts[3], dec_rat)]).reshape(An.shape)
+            if not close(mP, Pd, 1e-6) or not close(mA, An, 1e-6):
+                corr(f'hierarchy model: P / Galerkin product, {what}', case, parts[2][:200], Pd.ravel()[:12].tolist())
+                return
+            ctx.feat(f'hier-model:level{li}:P')
+    return {'line': line, 'judge': judge, 'key': _key('hier-model', line), 'nontrivial': any(l_.AggOp.shape[0] > l_.AggOp.shape[1] for l_ in lv),
+            'sample': {'op': what0 + ' vs level-loop model (E53)', 'levels': len(lv), 'n': n0, 'kind': kind} if t < 4 else None}
+
+
+def part_e53h(ctx, N):
+    rng = ctx.np_rng.spawn(3)[2]
+    return [safe(ctx, item_hierarchy_model, rng, t) for t in range(N)]
 
 
 def part_e53(ctx, N):
@@ -2766,6 +3094,8 @@ def part_e53(ctx, N):
     items = []
     for t in range(N):
         items.append(safe(ctx, item_energy_full, rng, t))
+        if t % 8 == 0:
+            items.append(safe(ctx, item_energy_blocksize, rng, t // 8))
     return items
 
 
@@ -2774,13 +3104,15 @@ def run(ctx):
     items += part_b(ctx, ctx.scale(150, 7500))
     items += part_e24(ctx, ctx.scale(60, 600))
     items += part_e48(ctx, ctx.scale(48, 960))
+    items += part_e53(ctx, ctx.scale(40, 800))
+    items += part_e53h(ctx, ctx.scale(10, 150))
     run_items(ctx, items)
     part_c(ctx, ctx.scale(150, 7500), ctx.scale(160, 8000), ctx.scale(42, 2100))
 
 
 def search(ctx):
     part_c(ctx, 600, 400, 140)
-    run_items(ctx, part_b(ctx, 300) + part_e24(ctx, 200) + part_e48(ctx, 200))
+    run_items(ctx, part_b(ctx, 300) + part_e24(ctx, 200) + part_e48(ctx, 200) + part_e53(ctx, 200) + part_e53h(ctx, 40))
 
 
 def _rebuild_smoother_inputs(case):
@@ -2929,6 +3261,10 @@ def replay(ctx, data):
         replay_imm_csr(ctx, case)
     elif op == 'incomplete_mat_mult_bsr':
         replay_imm_bsr(ctx, case)
+    elif op == 'energy_full':
+        e53_oracle(ctx, case)
+    elif op == 'hierarchy_model':
+        judge_hierarchy(ctx, dict(case, op='hierarchy'))
     elif op in ('energy_model', 'gmres_model'):
         c2 = dict(case, complex=case.get('complex', False), prefilter=None, postfilter=None)
         if case['root']:
